@@ -20,6 +20,21 @@ CLAIMED = {
  "C14": ("proof", "A1/A2 guard-completeness, write-gating and reply-address rules on the extracted sign table; loop-shape rule on the bus",
          "Reference-free: every path that replies or writes for an addressed kind took the address-equality edge; replies carry self.address; every path that writes for an unaddressed kind is restricted to the receiving states; the bus loop offers the message to signs in order and returns the first reply unchanged.",
          TB + "Non-interference over interleavings follows from these per-step facts (at most one sign satisfies the address atom; unaddressed kinds only touch receiving signs).", "DESIGN.md 4 C14"),
+ "C15": ("proof", "A2 effect-order / must-pass rules over enumerated MIR paths of Frame::read and Frame::write",
+         "On the polymorphic MIR of Frame::read<R> every path is enumerated: the reader flows only into BufReader::with_capacity(1, ..); that wrapper is used exactly once, by read_until(b'\\n', fresh Vec); an Err becomes FrameError::Io; the result is from_bytes of that untouched Vec. Frame::write<W>: the writer only sees one write_all(to_bytes_with_newline()), whose result is never dropped.",
+         TB + "std contracts: BufReader never buffers beyond its capacity, read_until consumes through the delimiter and retries Interrupted, write_all loops over short writes.", "DESIGN.md 4 C15"),
+ "C16": ("proof", "A2 effect-order rules + A1 classification table on SerialSignBus::process_message",
+         "Every path of <SerialSignBus<P> as SignBus>::process_message is enumerated (both logging extremes) with Frame::write/read and the From impls as protocol-level units; rules: first port effect is the write of Frame::from(message); a write error returns with no further port effect; exactly one read iff the message kind is Hello/QueryState/RequestOperation; results are never dropped; Ok(Some(Message::from(frame))) / Ok(None).",
+         TB + "Frame contents are C01/C04's concern.", "DESIGN.md 4 C16"),
+ "C17": ("other", "A2 bridge-shape rules on Odk::process_message + cross-table agreement (bridge clause only; rest by composition)",
+         "Decides two clauses, not the headline: (a) the ODK bridge reads one frame first, reports a decode error as Communication before any bus call, forwards Message::from(frame) to the bus, maps a bus error to OdkError::Bus and writes Frame::from(m) back iff the bus returned Some(m); (b) the serial bus's reply classification, the virtual sign's reply table and the controller's expectations agree on which kinds are answered. End-to-end equality of sign state is the composition of C01, C04, C05, C15, C16 with (a),(b) (lemma L5), not re-derived per run.",
+         TB + "Lemma L5 (DESIGN.md section 6).", "DESIGN.md 4 C17"),
+ "C18": ("proof", "A2 effect-order rules on thread::sleep placement + folded Duration constants",
+         "On every path of SerialSignBus::process_message the thread::sleep calls are located relative to the write, the read and the reply decoding: >= 30 ms directly after writing a SendData frame and for no other kind; >= 100 ms after decoding ReportState(PageLoadInProgress|PageShowInProgress) and for no other reply; no sleep before the write or on error paths; no other blocking call.",
+         TB + "thread::sleep(d) blocks at least d. Lower bounds only.", "DESIGN.md 4 C18"),
+ "C20": ("proof", "A2 must-call and error-discipline rules on configure_port, its settings closure and both constructors",
+         "Every Ok path of the closure passed to SerialPort::reconfigure calls the five setters with Baud19200/Bits8/ParityNone/Stop1/FlowNone on the closure's settings argument, unconditionally; no Result is dropped; configure_port applies the caller's timeout after a successful reconfigure and propagates each error; SerialSignBus::try_new / Odk::try_new pass a non-zero constant timeout and construct their object only on the Ok edge.",
+         TB + "serial-core: reconfigure = read settings, run closure, write settings back iff Ok.", "DESIGN.md 4 C20"),
  "C19": ("proof", "A1 table extraction + constant evaluation + cross-table relation",
          "to_bytes / dimensions / from_bytes are extracted as tables with rustc-evaluated constants; their mutual consistency, the height/width/bits-per-column relations inside each block, the virtual sign's derivation evaluated on each block, and from_bytes' length/acceptance conditions are checked for all 11 types and all paths.",
          TB, "DESIGN.md 4 C19"),
